@@ -28,6 +28,7 @@ import (
 	"path/filepath"
 	"sort"
 	"strings"
+	"sync"
 	"time"
 
 	"github.com/bluenviron/mediacommon/v2/pkg/codecs/mpeg4audio"
@@ -103,16 +104,83 @@ func segmentBytes() []byte {
 }
 
 type recFormat struct {
-	name  string
-	rel   string
-	class string // how the name carries the instant
+	name     string
+	rel      string
+	class    string // how the name carries the instant
+	playback bool   // the configuration accepts the format with the playback server enabled (it has %f); measured with conf.Load
 }
 
+// The alphabet of record path formats: one (or more) per class of format the configuration validator
+// ACCEPTS (conf.Path.validate: %path, and either %s or all of %Y %m %d %H %M %S; %f only when the
+// playback server is enabled). Every entry is verified against the real validator before use.
 var recFormats = []recFormat{
-	{"default", "%path/%Y-%m-%d_%H-%M-%S-%f", "local-time-name"},
-	{"with-z", "%path/%Y-%m-%d_%H-%M-%S-%f_%z", "name-with-utc-offset"},
-	{"unix", "%path/%s-%f", "unix-time-name"},
-	{"date-dirs", "%Y/%m/%d/%path/%H-%M-%S-%f", "local-time-name"},
+	// only calendar fields
+	{name: "default", rel: "%path/%Y-%m-%d_%H-%M-%S-%f", class: "local-time-name"},
+	{name: "with-z", rel: "%path/%Y-%m-%d_%H-%M-%S-%f_%z", class: "name-with-utc-offset"},
+	// only %s
+	{name: "unix", rel: "%path/%s-%f", class: "unix-time-name"},
+	// calendar fields in directories
+	{name: "date-dirs", rel: "%Y/%m/%d/%path/%H-%M-%S-%f", class: "local-time-name"},
+
+	// ---- second round: the other accepted classes ----
+	// without %f (accepted while the playback server is disabled): the name denotes one second
+	{name: "unix-seconds", rel: "%path/%s", class: "unix-time-name-without-f"},
+	{name: "calendar-seconds", rel: "%path/%Y-%m-%d_%H-%M-%S", class: "local-time-name-without-f"},
+	// %s together with a PARTIAL calendar set (date directories, Unix-time file names): accepted
+	// because %s makes %H %M %S optional; the instant is the Unix time
+	{name: "unix-in-day-dir", rel: "%path/%Y-%m-%d/%s-%f", class: "unix-time-name-with-partial-calendar"},
+	{name: "day-dirs-then-unix", rel: "%Y/%m/%d/%path/%s-%f", class: "unix-time-name-with-partial-calendar"},
+	{name: "unix-in-month-dir", rel: "%path/%Y-%m/%s-%f", class: "unix-time-name-with-partial-calendar"},
+	{name: "unix-in-hour-dir", rel: "%path/%H/%s-%f", class: "unix-time-name-with-partial-calendar"},
+	{name: "unix-with-day-in-name", rel: "%path/%Y%m%d_%s_%f", class: "unix-time-name-with-partial-calendar"},
+	{name: "unix-in-day-dir-seconds", rel: "%path/%Y-%m-%d/%s", class: "unix-time-name-with-partial-calendar-without-f"},
+	// %s together with the FULL calendar set
+	{name: "unix-and-calendar", rel: "%path/%Y-%m-%d_%H-%M-%S-%f_%s", class: "unix-time-name-with-full-calendar"},
+	{name: "unix-then-calendar-dirs", rel: "%s/%path/%Y/%m/%d/%H-%M-%S-%f", class: "unix-time-name-with-full-calendar"},
+	// %z next to %s
+	{name: "unix-with-z", rel: "%path/%s-%f_%z", class: "unix-time-name-with-utc-offset"},
+	{name: "unix-in-day-dir-with-z", rel: "%path/%Y-%m-%d_%z/%s-%f", class: "unix-time-name-with-partial-calendar-and-utc-offset"},
+	// %z in a directory
+	{name: "z-dir", rel: "%path/%z/%Y-%m-%d_%H-%M-%S-%f", class: "name-with-utc-offset"},
+	// fields repeated
+	{name: "repeated-date", rel: "%path/%Y-%m-%d/%Y-%m-%d_%H-%M-%S-%f", class: "local-time-name"},
+	{name: "repeated-unix", rel: "%path/%s/%s-%f", class: "unix-time-name"},
+	{name: "repeated-all", rel: "%path/%Y-%m-%d_%H-%M-%S-%f_%z/%s-%f_%z_%H-%M-%S", class: "unix-time-name-with-full-calendar"},
+	// every field a directory (the file is <micros>.mp4); time of day in directories
+	{name: "all-dirs", rel: "%path/%Y/%m/%d/%H/%M/%S/%f", class: "local-time-name"},
+	{name: "hour-dirs", rel: "%Y-%m-%d/%H/%path/%M-%S-%f", class: "local-time-name"},
+}
+
+// acceptFormats runs every format of the alphabet through the real configuration loader
+// (conf.Load -> Conf.Validate -> Path.validate): it must be accepted with the playback server disabled;
+// whether it is also accepted with it enabled decides if the playback listing is part of the case.
+func acceptFormats(base string) {
+	for i := range recFormats {
+		f := &recFormats[i]
+		for _, pb := range []bool{false, true} {
+			yml := fmt.Sprintf("playback: %v\npathDefaults:\n  recordPath: %s\npaths:\n  a:\n  a/b:\n",
+				pb, filepath.Join(base, "rec", f.rel))
+			fp := filepath.Join(base, "conf.yml")
+			if err := os.WriteFile(fp, []byte(yml), 0o644); err != nil {
+				vcommon.Harness("%v", err)
+			}
+			c, _, err := conf.Load(fp, nil, nilLogger{})
+			os.Remove(fp)
+			switch {
+			case err != nil && !pb:
+				os.RemoveAll(base)
+				vcommon.Harness("format %q of the alphabet is not accepted by the configuration: %v", f.rel, err)
+			case err == nil:
+				if c.Paths["a"] == nil || c.Paths["a"].RecordPath != filepath.Join(base, "rec", f.rel) {
+					os.RemoveAll(base)
+					vcommon.Harness("format %q: loaded configuration does not carry the record path", f.rel)
+				}
+				if pb {
+					f.playback = true
+				}
+			}
+		}
+	}
 }
 
 type writing struct {
@@ -161,7 +229,7 @@ func main() {
 	r := vcommon.Start("C31", "exploration")
 	gin.SetMode(gin.ReleaseMode)
 	zones := c26lib.Zones(r.Thorough())
-	r.Rule = "all (server zone x record path format x segment set x query instant x UTC-offset writing of the instant) through the real API and playback servers; " +
+	r.Rule = "all (server zone x record path format [every class the configuration validator accepts] x segment set x query instant x UTC-offset writing of the instant) through the real API and playback servers; " +
 		"distinct = (zone, format, set, kind of query, writing, outcome)"
 
 	base, err := os.MkdirTemp("", "c31-")
@@ -175,354 +243,396 @@ func main() {
 	seg := segmentBytes()
 	pathNames := []string{"a", "a/b"}
 	outcomes := map[string]int{}
+	var outMu sync.Mutex
+	acceptFormats(base)
+	classes := map[string]bool{}
+	withPlayback := 0
+	for _, f := range recFormats {
+		classes[f.class] = true
+		if f.playback {
+			withPlayback++
+		}
+	}
+
+	// Violations are collected per case (zone, format, set) and handed to the run in case order, so that
+	// the representative of a class is the same on every run although the cases of a zone run in parallel.
+	type pendingViol struct {
+		key, what string
+		replay    any
+	}
 
 	for zi, z := range zones {
 		time.Local = z.Loc // before any server goroutine of this zone exists
-		for fi, f := range recFormats {
-			// segment sets
-			t0 := mustParse("2026-09-21T10:11:12.345678Z")
-			_, offLocal := t0.In(time.Local).Zone()
-			collide := []time.Time{t0}
-			for _, o := range clientOffsets {
-				collide = append(collide, t0.Add(time.Duration(o-offLocal)*time.Second))
+		const nsets = 3
+		pending := make([][]pendingViol, len(recFormats)*nsets)
+		vcommon.Parallel(len(recFormats)*nsets, func(job int) {
+			fi, si := job/nsets, job%nsets
+			f := recFormats[fi]
+			violation := func(key, what string, replay any) {
+				pending[job] = append(pending[job], pendingViol{key, what, replay})
 			}
-			sets := []struct {
-				name string
-				ts   []time.Time
-			}{
-				{"collisions", collide},
-				{"dst-a", []time.Time{mustParse("2024-02-29T23:30:00.000001Z"), mustParse("2024-03-31T00:59:59.999999Z"),
-					mustParse("2024-03-31T01:30:00Z"), mustParse("2024-10-27T00:30:00.5Z"), mustParse("2024-03-10T06:59:59.999999Z"),
-					mustParse("2024-03-10T07:30:00Z"), mustParse("2024-11-03T05:30:00.25Z")}},
-				{"dst-b", []time.Time{mustParse("2024-10-27T01:30:00.5Z"), mustParse("2024-11-03T06:30:00.25Z"), t0}},
-			}
-			for si, set := range sets {
-				root := filepath.Join(base, fmt.Sprintf("%d-%d-%d", zi, fi, si))
-				if err := os.MkdirAll(root, 0o755); err != nil {
-					fail("%v", err)
+			{
+				// segment sets
+				t0 := mustParse("2026-09-21T10:11:12.345678Z")
+				_, offLocal := t0.In(time.Local).Zone()
+				collide := []time.Time{t0}
+				for _, o := range clientOffsets {
+					collide = append(collide, t0.Add(time.Duration(o-offLocal)*time.Second))
 				}
-				recordPath := filepath.Join(root, "rec", f.rel)
-				absFormat := recordstore.PathAddExtension(recordPath, conf.RecordFormatFMP4)
-				toks := c26lib.Tokenize(absFormat)
-				confs := map[string]*conf.Path{}
-				for _, pn := range pathNames {
-					confs[pn] = &conf.Path{Name: pn, RecordPath: recordPath, RecordFormat: conf.RecordFormatFMP4}
+				sets := []struct {
+					name string
+					ts   []time.Time
+				}{
+					{"collisions", collide},
+					{"dst-a", []time.Time{mustParse("2024-02-29T23:30:00.000001Z"), mustParse("2024-03-31T00:59:59.999999Z"),
+						mustParse("2024-03-31T01:30:00Z"), mustParse("2024-10-27T00:30:00.5Z"), mustParse("2024-03-10T06:59:59.999999Z"),
+						mustParse("2024-03-10T07:30:00Z"), mustParse("2024-11-03T05:30:00.25Z")}},
+					{"dst-b", []time.Time{mustParse("2024-10-27T01:30:00.5Z"), mustParse("2024-11-03T06:30:00.25Z"), t0}},
 				}
-
-				// the recorder's files
-				var files []*segFile
-				seenT := map[int64]bool{}
-				for _, t := range set.ts {
-					if seenT[t.UnixMicro()] {
-						continue
+				{
+					set := sets[si]
+					root := filepath.Join(base, fmt.Sprintf("%d-%d-%d", zi, fi, si))
+					if err := os.MkdirAll(root, 0o755); err != nil {
+						fail("%v", err)
 					}
-					seenT[t.UnixMicro()] = true
+					recordPath := filepath.Join(root, "rec", f.rel)
+					absFormat := recordstore.PathAddExtension(recordPath, conf.RecordFormatFMP4)
+					toks := c26lib.Tokenize(absFormat)
+					confs := map[string]*conf.Path{}
 					for _, pn := range pathNames {
-						lt := t.In(time.Local)
-						fpath := recordstore.Path{Start: lt}.Encode(
-							recordstore.PathAddExtension(strings.ReplaceAll(recordPath, "%path", pn), conf.RecordFormatFMP4))
-						if m := c26lib.ModelEncode(toks, pn, lt); m != fpath {
-							fail("model encoding %q != recorder's %q", m, fpath)
-						}
-						if err := os.MkdirAll(filepath.Dir(fpath), 0o755); err != nil {
-							fail("%v", err)
-						}
-						if _, err := os.Stat(fpath); err == nil {
-							fail("two segments of the set share the name %s", fpath)
-						}
-						if err := os.WriteFile(fpath, seg, 0o644); err != nil {
-							fail("%v", err)
-						}
-						files = append(files, &segFile{path: pn, start: t, fpath: fpath, cands: c26lib.Parse(toks, fpath, pn, time.Local)})
+						confs[pn] = &conf.Path{Name: pn, RecordPath: recordPath, RecordFormat: conf.RecordFormatFMP4}
 					}
-				}
-				all := regularFiles(root)
-				if len(all) != len(files) {
-					fail("tree has %d files, expected %d", len(all), len(files))
-				}
 
-				// the servers
-				apiSock := filepath.Join(root, "api.sock")
-				pbSock := filepath.Join(root, "pb.sock")
-				a := &api.API{
-					Address: "unix://" + apiSock, ReadTimeout: conf.Duration(10 * time.Second), WriteTimeout: conf.Duration(10 * time.Second),
-					AuthManager: allowAll{}, Parent: &apiParent{cnf: &conf.Conf{Paths: confs}},
-				}
-				if err := a.Initialize(); err != nil {
-					fail("api: %v", err)
-				}
-				pb := &playback.Server{
-					Address: "unix://" + pbSock, ReadTimeout: conf.Duration(10 * time.Second), WriteTimeout: conf.Duration(10 * time.Second),
-					PathConfs: confs, AuthManager: allowAll{}, Parent: nilLogger{},
-				}
-				if err := pb.Initialize(); err != nil {
-					fail("playback: %v", err)
-				}
-				apiC, pbC := unixClient(apiSock), unixClient(pbSock)
-				get := func(c *http.Client, method, u string) (int, []byte) {
-					req, _ := http.NewRequest(method, u, nil)
-					res, err := c.Do(req)
-					if err != nil {
-						fail("%s %s: %v", method, u, err)
-					}
-					defer res.Body.Close()
-					b, _ := io.ReadAll(res.Body)
-					return res.StatusCode, b
-				}
-				tag := fmt.Sprintf("%s|%s|%s", z.Name, f.name, set.name)
-				rep := func(extra map[string]any) map[string]any {
-					m := map[string]any{"zone": z.Name, "recordPath": "<root>/rec/" + f.rel, "set": set.name}
-					var ss []string
+					// the recorder's files
+					var files []*segFile
+					seenT := map[int64]bool{}
 					for _, t := range set.ts {
-						ss = append(ss, t.Format(time.RFC3339Nano))
-					}
-					m["segments"] = ss
-					for k, v := range extra {
-						m[k] = v
-					}
-					return m
-				}
-
-				// ---- listing: API get, API list, playback list ------------------------------------------
-				for _, pn := range pathNames {
-					var mine []*segFile
-					for _, sf := range files {
-						if sf.path == pn {
-							mine = append(mine, sf)
-						}
-					}
-					st, body := get(apiC, http.MethodGet, "http://api/v3/recordings/get/"+pn)
-					var rec struct {
-						Name     string
-						Segments []struct{ Start time.Time }
-					}
-					if st != 200 || json.Unmarshal(body, &rec) != nil {
-						fail("recordings/get/%s: %d %s", pn, st, body)
-					}
-					r.Eval(1)
-					var apiList []time.Time
-					for _, s := range rec.Segments {
-						apiList = append(apiList, s.Start)
-					}
-					st, body = get(pbC, http.MethodGet, "http://pb/list?path="+url.QueryEscape(pn))
-					var entries []struct {
-						Start    time.Time
-						Duration float64
-					}
-					if st != 200 || json.Unmarshal(body, &entries) != nil {
-						fail("playback list %s: %d %s", pn, st, body)
-					}
-					r.Eval(1)
-					var pbList []time.Time
-					for _, e := range entries {
-						pbList = append(pbList, e.Start)
-					}
-					same := len(apiList) == len(pbList)
-					for i := 0; same && i < len(apiList); i++ {
-						same = apiList[i].Equal(pbList[i])
-					}
-					if !same {
-						r.Violation("api-and-playback-list-disagree:"+f.name,
-							fmt.Sprintf("[%s] path %q: recordings/get lists %v, playback list %v", tag, pn, apiList, pbList), rep(map[string]any{"path": pn}))
-					}
-					// every file is listed with an instant its name denotes (exactly its start when unambiguous)
-					used := map[int]bool{}
-					for _, sf := range mine {
-						found := -1
-						for i, lt := range apiList {
-							if used[i] {
-								continue
-							}
-							for _, c := range sf.cands {
-								if c.Contains(lt) {
-									found = i
-								}
-							}
-							if found >= 0 {
-								break
-							}
-						}
-						if found < 0 {
-							r.Violation("segment-not-listed-with-its-instant:"+f.name,
-								fmt.Sprintf("[%s] path %q: segment started %s (file %s) is not among the listed instants %v", tag, pn,
-									sf.start.Format(time.RFC3339Nano), strings.ReplaceAll(sf.fpath, root, "<root>"), apiList), rep(map[string]any{"path": pn}))
-							sf.listed = sf.start
+						if seenT[t.UnixMicro()] {
 							continue
 						}
-						used[found] = true
-						sf.listed = apiList[found]
-					}
-					if len(apiList) != len(mine) {
-						r.Violation("listed-count:"+f.name, fmt.Sprintf("[%s] path %q: %d files, %d listed", tag, pn, len(mine), len(apiList)), rep(map[string]any{"path": pn}))
-					}
-					amb := 0
-					for _, sf := range mine {
-						if len(sf.cands) > 1 {
-							amb++
+						seenT[t.UnixMicro()] = true
+						for _, pn := range pathNames {
+							lt := t.In(time.Local)
+							fpath := recordstore.Path{Start: lt}.Encode(
+								recordstore.PathAddExtension(strings.ReplaceAll(recordPath, "%path", pn), conf.RecordFormatFMP4))
+							if m := c26lib.ModelEncode(toks, pn, lt); m != fpath {
+								fail("model encoding %q != recorder's %q", m, fpath)
+							}
+							if err := os.MkdirAll(filepath.Dir(fpath), 0o755); err != nil {
+								fail("%v", err)
+							}
+							if _, err := os.Stat(fpath); err == nil {
+								fail("two segments of the set share the name %s", fpath)
+							}
+							if err := os.WriteFile(fpath, seg, 0o644); err != nil {
+								fail("%v", err)
+							}
+							files = append(files, &segFile{path: pn, start: t, fpath: fpath, cands: c26lib.Parse(toks, fpath, pn, time.Local)})
 						}
 					}
-					r.Distinct(fmt.Sprintf("%s|list|%s|n=%d|ambiguous=%d|agree=%v", tag, pn, len(mine), amb, same))
-				}
-				st, body := get(apiC, http.MethodGet, "http://api/v3/recordings/list")
-				var lst struct {
-					Items []struct {
-						Name     string
-						Segments []struct{ Start time.Time }
+					all := regularFiles(root)
+					if len(all) != len(files) {
+						fail("tree has %d files, expected %d", len(all), len(files))
 					}
-				}
-				if st != 200 || json.Unmarshal(body, &lst) != nil {
-					fail("recordings/list: %d %s", st, body)
-				}
-				r.Eval(1)
-				for _, it := range lst.Items {
-					var want []time.Time
-					for _, sf := range files {
-						if sf.path == it.Name {
-							want = append(want, sf.listed)
-						}
-					}
-					sort.Slice(want, func(i, j int) bool { return want[i].Before(want[j]) })
-					ok := len(want) == len(it.Segments)
-					for i := 0; ok && i < len(want); i++ {
-						ok = want[i].Equal(it.Segments[i].Start)
-					}
-					if !ok {
-						r.Violation("recordings-list-and-get-disagree:"+f.name, fmt.Sprintf("[%s] path %q: list %v, get %v", tag, it.Name, it.Segments, want), rep(nil))
-					}
-				}
-				if len(lst.Items) != len(pathNames) {
-					r.Violation("recordings-list-paths:"+f.name, fmt.Sprintf("[%s] recordings/list has %d paths", tag, len(lst.Items)), rep(nil))
-				}
 
-				// ---- deletion ----------------------------------------------------------------------------
-				type query struct {
-					kind string
-					q    time.Time
-				}
-				var queries []query
-				seenQ := map[int64]bool{}
-				addQ := func(kind string, q time.Time) {
-					if !seenQ[q.UnixMicro()] {
-						seenQ[q.UnixMicro()] = true
-						queries = append(queries, query{kind, q})
+					// the servers
+					apiSock := filepath.Join(root, "api.sock")
+					pbSock := filepath.Join(root, "pb.sock")
+					a := &api.API{
+						Address: "unix://" + apiSock, ReadTimeout: conf.Duration(10 * time.Second), WriteTimeout: conf.Duration(10 * time.Second),
+						AuthManager: allowAll{}, Parent: &apiParent{cnf: &conf.Conf{Paths: confs}},
 					}
-				}
-				for _, sf := range files {
-					if sf.path == "a" {
-						addQ("listed-instant", sf.listed)
+					if err := a.Initialize(); err != nil {
+						fail("api: %v", err)
 					}
-				}
-				for _, sf := range files {
-					if sf.path != "a" {
-						continue
+					pb := &playback.Server{
+						Address: "unix://" + pbSock, ReadTimeout: conf.Duration(10 * time.Second), WriteTimeout: conf.Duration(10 * time.Second),
+						PathConfs: confs, AuthManager: allowAll{}, Parent: nilLogger{},
 					}
-					_, off := sf.listed.In(time.Local).Zone()
-					for _, o := range clientOffsets {
-						if o != off {
-							addQ("no-segment:shifted-by-offset-difference", sf.listed.Add(time.Duration(off-o)*time.Second))
-							addQ("no-segment:shifted-by-offset-difference", sf.listed.Add(time.Duration(o-off)*time.Second))
+					if err := pb.Initialize(); err != nil {
+						fail("playback: %v", err)
+					}
+					apiC, pbC := unixClient(apiSock), unixClient(pbSock)
+					get := func(c *http.Client, method, u string) (int, []byte) {
+						req, _ := http.NewRequest(method, u, nil)
+						res, err := c.Do(req)
+						if err != nil {
+							fail("%s %s: %v", method, u, err)
+						}
+						defer res.Body.Close()
+						b, _ := io.ReadAll(res.Body)
+						return res.StatusCode, b
+					}
+					tag := fmt.Sprintf("%s|%s|%s", z.Name, f.name, set.name)
+					rep := func(extra map[string]any) map[string]any {
+						m := map[string]any{"zone": z.Name, "recordPath": "<root>/rec/" + f.rel, "set": set.name}
+						var ss []string
+						for _, t := range set.ts {
+							ss = append(ss, t.Format(time.RFC3339Nano))
+						}
+						m["segments"] = ss
+						for k, v := range extra {
+							m[k] = v
+						}
+						return m
+					}
+
+					// ---- listing: API get, API list, playback list ------------------------------------------
+					for _, pn := range pathNames {
+						var mine []*segFile
+						for _, sf := range files {
+							if sf.path == pn {
+								mine = append(mine, sf)
+							}
+						}
+						st, body := get(apiC, http.MethodGet, "http://api/v3/recordings/get/"+pn)
+						var rec struct {
+							Name     string
+							Segments []struct{ Start time.Time }
+						}
+						if st != 200 || json.Unmarshal(body, &rec) != nil {
+							fail("recordings/get/%s: %d %s", pn, st, body)
+						}
+						r.Eval(1)
+						var apiList []time.Time
+						for _, s := range rec.Segments {
+							apiList = append(apiList, s.Start)
+						}
+						// the playback server only exists for formats the configuration accepts with it enabled
+						same := true
+						if f.playback {
+							st, body = get(pbC, http.MethodGet, "http://pb/list?path="+url.QueryEscape(pn))
+							var entries []struct {
+								Start    time.Time
+								Duration float64
+							}
+							if st != 200 || json.Unmarshal(body, &entries) != nil {
+								fail("playback list %s: %d %s", pn, st, body)
+							}
+							r.Eval(1)
+							var pbList []time.Time
+							for _, e := range entries {
+								pbList = append(pbList, e.Start)
+							}
+							same = len(apiList) == len(pbList)
+							for i := 0; same && i < len(apiList); i++ {
+								same = apiList[i].Equal(pbList[i])
+							}
+							if !same {
+								violation("api-and-playback-list-disagree:"+f.name,
+									fmt.Sprintf("[%s] path %q: recordings/get lists %v, playback list %v", tag, pn, apiList, pbList), rep(map[string]any{"path": pn}))
+							}
+						}
+						// every file is listed with an instant its name denotes (exactly its start when unambiguous)
+						used := map[int]bool{}
+						for _, sf := range mine {
+							found := -1
+							for i, lt := range apiList {
+								if used[i] {
+									continue
+								}
+								for _, c := range sf.cands {
+									if c.Contains(lt) {
+										found = i
+									}
+								}
+								if found >= 0 {
+									break
+								}
+							}
+							if found < 0 {
+								violation("segment-not-listed-with-its-instant:"+f.name,
+									fmt.Sprintf("[%s] path %q: segment started %s (file %s) is not among the listed instants %v", tag, pn,
+										sf.start.Format(time.RFC3339Nano), strings.ReplaceAll(sf.fpath, root, "<root>"), apiList), rep(map[string]any{"path": pn}))
+								sf.listed = sf.start
+								continue
+							}
+							used[found] = true
+							sf.listed = apiList[found]
+						}
+						if len(apiList) != len(mine) {
+							violation("listed-count:"+f.name, fmt.Sprintf("[%s] path %q: %d files, %d listed", tag, pn, len(mine), len(apiList)), rep(map[string]any{"path": pn}))
+						}
+						amb := 0
+						for _, sf := range mine {
+							if len(sf.cands) > 1 {
+								amb++
+							}
+						}
+						r.Distinct(fmt.Sprintf("%s|list|%s|n=%d|ambiguous=%d|agree=%v", tag, pn, len(mine), amb, same))
+					}
+					st, body := get(apiC, http.MethodGet, "http://api/v3/recordings/list")
+					var lst struct {
+						Items []struct {
+							Name     string
+							Segments []struct{ Start time.Time }
 						}
 					}
-					addQ("no-segment:+1s", sf.listed.Add(time.Second))
-					addQ("no-segment:+1us", sf.listed.Add(time.Microsecond))
-				}
-				for _, qu := range queries {
-					expected := map[string]bool{}
-					dontcare := map[string]bool{}
+					if st != 200 || json.Unmarshal(body, &lst) != nil {
+						fail("recordings/list: %d %s", st, body)
+					}
+					r.Eval(1)
+					for _, it := range lst.Items {
+						var want []time.Time
+						for _, sf := range files {
+							if sf.path == it.Name {
+								want = append(want, sf.listed)
+							}
+						}
+						sort.Slice(want, func(i, j int) bool { return want[i].Before(want[j]) })
+						ok := len(want) == len(it.Segments)
+						for i := 0; ok && i < len(want); i++ {
+							ok = want[i].Equal(it.Segments[i].Start)
+						}
+						if !ok {
+							violation("recordings-list-and-get-disagree:"+f.name, fmt.Sprintf("[%s] path %q: list %v, get %v", tag, it.Name, it.Segments, want), rep(nil))
+						}
+					}
+					if len(lst.Items) != len(pathNames) {
+						violation("recordings-list-paths:"+f.name, fmt.Sprintf("[%s] recordings/list has %d paths", tag, len(lst.Items)), rep(nil))
+					}
+
+					// ---- deletion ----------------------------------------------------------------------------
+					type query struct {
+						kind string
+						q    time.Time
+					}
+					var queries []query
+					seenQ := map[int64]bool{}
+					addQ := func(kind string, q time.Time) {
+						if !seenQ[q.UnixMicro()] {
+							seenQ[q.UnixMicro()] = true
+							queries = append(queries, query{kind, q})
+						}
+					}
+					for _, sf := range files {
+						if sf.path == "a" {
+							addQ("listed-instant", sf.listed)
+						}
+					}
 					for _, sf := range files {
 						if sf.path != "a" {
 							continue
 						}
-						if sf.listed.Equal(qu.q) {
-							expected[sf.fpath] = true
-							continue
+						_, off := sf.listed.In(time.Local).Zone()
+						for _, o := range clientOffsets {
+							if o != off {
+								addQ("no-segment:shifted-by-offset-difference", sf.listed.Add(time.Duration(off-o)*time.Second))
+								addQ("no-segment:shifted-by-offset-difference", sf.listed.Add(time.Duration(o-off)*time.Second))
+							}
 						}
-						if len(sf.cands) > 1 {
+						addQ("no-segment:+1s", sf.listed.Add(time.Second))
+						addQ("no-segment:+1us", sf.listed.Add(time.Microsecond))
+					}
+					for _, qu := range queries {
+						expected := map[string]bool{}
+						dontcare := map[string]bool{}
+						for _, sf := range files {
+							if sf.path != "a" {
+								continue
+							}
+							if sf.listed.Equal(qu.q) {
+								expected[sf.fpath] = true
+								continue
+							}
+							// a name that denotes more than the listed instant (two occurrences of a wall clock in a
+							// DST overlap; a whole second when the format has no %f): the statement leaves open
+							// whether a query for another instant the name denotes removes the file
 							for _, c := range sf.cands {
-								if c.Contains(qu.q) {
+								if (len(sf.cands) > 1 || c.Span > time.Microsecond) && c.Contains(qu.q) {
 									dontcare[sf.fpath] = true
 								}
 							}
 						}
+						kind := qu.kind
+						if len(expected) != 0 {
+							kind = "listed-instant"
+						} else if kind == "listed-instant" {
+							kind = "no-segment"
+						}
+						for _, w := range writings {
+							ws := qu.q.In(w.loc(qu.q)).Format(time.RFC3339Nano)
+							v := url.Values{}
+							v.Set("path", "a")
+							v.Set("start", ws)
+							st, body := get(apiC, http.MethodDelete, "http://api/v3/recordings/deletesegment?"+v.Encode())
+							r.Eval(1)
+							now := regularFiles(root)
+							var removed []string
+							for p := range all {
+								if !now[p] {
+									removed = append(removed, p)
+								}
+							}
+							sort.Strings(removed)
+							// classification of the writing relative to the server
+							_, offServer := qu.q.In(time.Local).Zone()
+							_, offWritten := qu.q.In(w.loc(qu.q)).Zone()
+							wclass := "offset-differs-from-server"
+							if offServer == offWritten {
+								wclass = "offset-equals-server"
+							}
+							var bad []string
+							missing := false
+							for p := range expected {
+								if now[p] {
+									missing = true
+								}
+							}
+							for _, p := range removed {
+								if !expected[p] && !dontcare[p] {
+									bad = append(bad, strings.ReplaceAll(p, root, "<root>"))
+								}
+							}
+							outcome := "ok"
+							rp := rep(map[string]any{"query": ws, "instant": qu.q.UTC().Format(time.RFC3339Nano), "writing": w.name, "status": st})
+							if missing {
+								outcome = "segment-not-removed"
+								violation("segment-not-removed:"+wclass+":"+f.class,
+									strings.ReplaceAll(fmt.Sprintf("[%s] DELETE deletesegment?path=a&start=%s -> %d %s: the segment of \"a\" listed with start %s (same instant) is still there; removed: %v",
+										tag, ws, st, strings.TrimSpace(vcommon.Short(string(body), 120)), qu.q.In(time.Local).Format(time.RFC3339Nano), removed), root, "<root>"), rp)
+							}
+							if len(bad) != 0 {
+								outcome += "+other-file-removed"
+								violation("other-segment-removed:"+wclass+":"+f.class,
+									fmt.Sprintf("[%s] DELETE deletesegment?path=a&start=%s -> %d: removed %v, whose listed start is not that instant (segments with that instant: %d)",
+										tag, ws, st, bad, len(expected)), rp)
+							}
+							if !missing && len(bad) == 0 && len(expected) == 0 && len(removed) != 0 {
+								outcome = "ok(removed-a-file-whose-name-also-denotes-the-instant)"
+							}
+							if !missing && len(bad) == 0 && len(expected) != 0 && st != 200 {
+								violation("removed-but-error-status:"+f.name, fmt.Sprintf("[%s] start=%s removed the segment but answered %d", tag, ws, st), rp)
+							}
+							outMu.Lock()
+							outcomes[fmt.Sprintf("%s|%s|%s", kind, wclass, outcome)]++
+							outMu.Unlock()
+							r.Distinct(fmt.Sprintf("%s|delete|%s|%s|%s|%s|status=%d", tag, kind, w.name, wclass, outcome, st))
+							if zi == 1 && fi == 0 && si == 0 && len(expected) != 0 {
+								r.Sample(map[string]any{"zone": z.Name, "format": f.rel, "start": ws, "status": st, "removed": len(removed), "outcome": outcome})
+							}
+							// restore
+							for _, p := range removed {
+								if err := os.MkdirAll(filepath.Dir(p), 0o755); err != nil {
+									fail("%v", err)
+								}
+								if err := os.WriteFile(p, seg, 0o644); err != nil {
+									fail("%v", err)
+								}
+							}
+						}
 					}
-					kind := qu.kind
-					if len(expected) != 0 {
-						kind = "listed-instant"
-					} else if kind == "listed-instant" {
-						kind = "no-segment"
-					}
-					for _, w := range writings {
-						ws := qu.q.In(w.loc(qu.q)).Format(time.RFC3339Nano)
-						v := url.Values{}
-						v.Set("path", "a")
-						v.Set("start", ws)
-						st, body := get(apiC, http.MethodDelete, "http://api/v3/recordings/deletesegment?"+v.Encode())
-						r.Eval(1)
-						now := regularFiles(root)
-						var removed []string
-						for p := range all {
-							if !now[p] {
-								removed = append(removed, p)
-							}
-						}
-						sort.Strings(removed)
-						// classification of the writing relative to the server
-						_, offServer := qu.q.In(time.Local).Zone()
-						_, offWritten := qu.q.In(w.loc(qu.q)).Zone()
-						wclass := "offset-differs-from-server"
-						if offServer == offWritten {
-							wclass = "offset-equals-server"
-						}
-						var bad []string
-						missing := false
-						for p := range expected {
-							if now[p] {
-								missing = true
-							}
-						}
-						for _, p := range removed {
-							if !expected[p] && !dontcare[p] {
-								bad = append(bad, strings.ReplaceAll(p, root, "<root>"))
-							}
-						}
-						outcome := "ok"
-						rp := rep(map[string]any{"query": ws, "instant": qu.q.UTC().Format(time.RFC3339Nano), "writing": w.name, "status": st})
-						if missing {
-							outcome = "segment-not-removed"
-							r.Violation("segment-not-removed:"+wclass+":"+f.class,
-								strings.ReplaceAll(fmt.Sprintf("[%s] DELETE deletesegment?path=a&start=%s -> %d %s: the segment of \"a\" listed with start %s (same instant) is still there; removed: %v",
-									tag, ws, st, strings.TrimSpace(vcommon.Short(string(body), 120)), qu.q.In(time.Local).Format(time.RFC3339Nano), removed), root, "<root>"), rp)
-						}
-						if len(bad) != 0 {
-							outcome += "+other-file-removed"
-							r.Violation("other-segment-removed:"+wclass+":"+f.class,
-								fmt.Sprintf("[%s] DELETE deletesegment?path=a&start=%s -> %d: removed %v, whose listed start is not that instant (segments with that instant: %d)",
-									tag, ws, st, bad, len(expected)), rp)
-						}
-						if !missing && len(bad) == 0 && len(expected) != 0 && st != 200 {
-							r.Violation("removed-but-error-status:"+f.name, fmt.Sprintf("[%s] start=%s removed the segment but answered %d", tag, ws, st), rp)
-						}
-						outcomes[fmt.Sprintf("%s|%s|%s", kind, wclass, outcome)]++
-						r.Distinct(fmt.Sprintf("%s|delete|%s|%s|%s|%s|status=%d", tag, kind, w.name, wclass, outcome, st))
-						if zi == 1 && fi == 0 && si == 0 && len(expected) != 0 {
-							r.Sample(map[string]any{"zone": z.Name, "format": f.rel, "start": ws, "status": st, "removed": len(removed), "outcome": outcome})
-						}
-						// restore
-						for _, p := range removed {
-							if err := os.MkdirAll(filepath.Dir(p), 0o755); err != nil {
-								fail("%v", err)
-							}
-							if err := os.WriteFile(p, seg, 0o644); err != nil {
-								fail("%v", err)
-							}
-						}
-					}
+					apiC.CloseIdleConnections()
+					pbC.CloseIdleConnections()
+					a.Close()
+					pb.Close()
+					os.RemoveAll(root)
 				}
-				apiC.CloseIdleConnections()
-				pbC.CloseIdleConnections()
-				a.Close()
-				pb.Close()
-				os.RemoveAll(root)
+			}
+		})
+		for _, pv := range pending {
+			for _, v := range pv {
+				r.Violation(v.key, v.what, v.replay)
 			}
 		}
 	}
@@ -530,11 +640,15 @@ func main() {
 	os.RemoveAll(base)
 	r.Set("zones", len(zones))
 	r.Set("formats", len(recFormats))
+	r.Set("format_classes", len(classes))
+	r.Set("formats_with_playback_listing", withPlayback)
 	r.Set("outcomes", outcomes)
 	r.Exhaustive = true
 	r.Assumptions = []string{
 		"a segment's start instant is the one recordings/get lists for it (required to be one its file name denotes; C26 judges the naming itself)",
 		"a file whose name denotes two instants (DST overlap, format without %z/%s) may or may not be removed by a query for the instant that was not listed",
+		"a format without %f (accepted only while the playback server is disabled) names one second: the listed instant is the whole second, and a query for another instant of that second (+1 us) may or may not remove the file; the playback listing is not requested for such formats",
+		"record path formats: one or more per class the configuration accepts (calendar only, %s only, %s with a partial or the full calendar set, %z present/absent and next to %s, repeated fields, fields in directories / in the file name, with/without %f); each is checked with conf.Load before use; when %s is present the instant is the Unix time whatever calendar fields accompany it",
 		"instants are 2024 (DST days of Europe/Rome and America/New_York, leap day) and 2026; offsets {Z, server's, +05:30, -08:00, +14:00}; RFC 3339 with fractional seconds",
 		"playback /get and the recordings list pagination are not exercised; authentication accepts everything",
 		"servers run on unix sockets created by the real Initialize of api.API and playback.Server",
